@@ -10,6 +10,11 @@ SKIP = re.compile(r"\b(contains_value|destroy_cb)\b|kind=stack|\bs\d\b")
 def generate(rng, tier, mode="default"):
     out = []
     base = A.generate(rng, tier, mode)
+    import engines as E
+    if mode in E.MODE_FILTERS:
+        # a cross-cutting property asks for one aspect: select it before the quick-tier cut below, not after
+        sel = [t for t in base if E.MODE_FILTERS[mode](t)]
+        if len(sel) >= 20: base = sel
     for t in base:
         if SKIP.search(t[0]) or any(SKIP.search(l) for l in t[1:]):
             continue
